@@ -9,8 +9,6 @@
 static unsigned int g_expect_id;   /* the slot id the next getVariant call must ask for */
 static int g_pending;              /* 1: a slot was fetched and not yet visited; 2: visited, successor not yet read */
 static int g_proto_ok;             /* no protocol violation so far */
-static _Bool g_addmember_failed;
-static unsigned g_derefs;
 static unsigned long g_out_len;
 static unsigned long g_children;   /* number of slots visited (mod 2^64) */
 #define G_OUT_LEN_DECLARED 1
@@ -21,6 +19,8 @@ static unsigned long g_n0;         /* the announced element count */
 static unsigned long g_entries;    /* elements/members completely processed */
 static int g_stage;                /* 0: between entries; object: 1 key read, 2 key saved, 3 member added; array: 3 element added */
 static int g_proto_ok;
+static _Bool g_addmember_failed;     /* addMember returned null (the key reference must then be given back) */
+static unsigned g_derefs;
 static unsigned g_child_err;       /* the first error a callee reported (0 if none) */
 #endif
 #ifdef VERIF_NATIVE
